@@ -164,6 +164,42 @@ def orderOK (rank : Mutex → Nat) : Held → List Act → Bool
 def threadHolds (σ : State) (t : Thread) : Held :=
   (σ.filter (fun h => h.t == t)).map (fun h => (h.m, h.mode))
 
+/-! ## B'. scripts with calls: summaries, calling contexts, inlining -/
+
+inductive PAct
+  | act (a : Act)
+  | call (f : Nat)
+  deriving DecidableEq, Repr
+
+abbrev Body := List PAct
+
+/-- expand the calls of a body with `callee` (the expansion of each function one level down) -/
+def inlineWith (callee : Nat → Option (List Act)) : Body → Option (List Act)
+  | [] => some []
+  | .act a :: r => (inlineWith callee r).map (a :: ·)
+  | .call f :: r =>
+    match callee f, inlineWith callee r with
+    | some x, some y => some (x ++ y)
+    | _, _ => none
+
+/-- the script of function `f` with all calls inlined, to call depth `fuel`; `none` = the depth
+bound was exceeded (recursion): fail closed -/
+def inlineFn (P : List Body) : Nat → Nat → Option (List Act)
+  | 0, _ => none
+  | fuel + 1, f => inlineWith (inlineFn P fuel) (P.getD f [])
+
+/-- the modular lockset check of one body in one calling context `H0` (the locks held on entry):
+accesses are checked against the locks held so far, a call requires the current lockset to be a
+recorded context of the callee, and the body must return with exactly the locks it was entered with -/
+def modOK (L : Loc → Mutex) (ctxs : Nat → List Held) (H0 : Held) : Held → Body → Bool
+  | H, [] => H == H0
+  | H, .act a :: r =>
+    (match a with
+     | .rd x => H.any (fun h => h.1 == L x)
+     | .wr x => H.any (fun h => h.1 == L x && h.2 == .ex)
+     | _ => true) && modOK L ctxs H0 (after H a) r
+  | H, .call g :: r => (ctxs g).contains H && modOK L ctxs H0 H r
+
 /-! ## C. `Cluster.Alerts()` against the alert writer -/
 
 namespace Alerts
@@ -308,16 +344,82 @@ structure Guard where
   writer : Nat
   reader : Nat
 
+/-- a hold: mutex, exclusive?, object token (which object's mutex: a number standing for
+"expression `e` in function `f`"; 0 = unknown, never matched) -/
 structure HeldLock where
   mutex : Nat
   excl : Bool
-  sameBase : Bool
+  base : Nat
+  deriving DecidableEq, Repr
 
+/-- an access. `param = 0`: to the designated field `guard` of the object `base`;
+`param = i + 1`: through parameter `i` of the function (`guard`, `base` come from the calling
+context that binds the parameter to guarded data; unbound: no obligation).
+`held`: the locks the function itself holds at that point. -/
 structure Access where
   fn : Nat
   guard : Nat
+  param : Nat
   write : Bool
   held : List HeldLock
+  base : Nat
+  pos : Nat
+
+/-- parameter `param` of the function is (an alias of) the guarded structure `guard` of object `base` -/
+structure Binding where
+  param : Nat
+  guard : Nat
+  base : Nat
+  deriving DecidableEq, Repr
+
+/-- a calling context of `fn`: what the callers hold on the way in, and which parameters carry
+guarded data -/
+structure Ctx where
+  fn : Nat
+  locks : List HeldLock
+  binds : List Binding
+  deriving DecidableEq, Repr
+
+/-- an argument of a call: parameter `param` of the callee receives the guarded structure
+(`guard`, `base`) directly (`fromParam = 0`) or the caller's own parameter `fromParam - 1`;
+`all`: the callee is a deferred closure of the caller and sees all its bindings -/
+structure ArgBind where
+  param : Nat
+  fromParam : Nat
+  guard : Nat
+  base : Nat
+  all : Bool
+
+/-- a call site: locks the caller itself holds, how object tokens are renamed (actual → formal),
+which tokens would name an outer activation of the callee (made unmatchable), the arguments -/
+structure CallEdge where
+  caller : Nat
+  callee : Nat
+  held : List HeldLock
+  trans : List (Nat × Nat)
+  poison : List Nat
+  args : List ArgBind
+
+structure FnFact where
+  fn : Nat
+  exported : Bool
+  spawned : Bool
+  asValue : Bool
+  callSites : Nat
+
+inductive EscKind
+  | value    -- a value copy
+  | copy     -- a fresh container of values
+  | ownlock  -- pointer(s) to objects that have their own lock in the table
+  | payload  -- pointer(s) to objects never written after they were stored (trusted list)
+  | raw      -- the guarded structure itself, or a pointer without discipline: fails
+  deriving DecidableEq, Repr
+
+/-- a reference taken out of a guarded structure that leaves the function -/
+structure Escape where
+  fn : Nat
+  guard : Nat
+  kind : EscKind
   pos : Nat
 
 structure Spawn where
@@ -339,20 +441,59 @@ def snapshotsOK (l : List Snapshot) : Bool :=
 
 def guardOf (gs : List Guard) (id : Nat) : Option Guard := gs.find? (fun g => g.id == id)
 
-def accessOK (gs : List Guard) (sp : List Spawn) (a : Access) : Bool :=
-  match guardOf gs a.guard with
-  | none => false
-  | some g =>
-    g.declared &&
-    (match g.kind with
-     | .locked => g.mutex != 0 &&
-         a.held.any (fun h => h.mutex == g.mutex && h.sameBase && (h.excl || !a.write))
-     | .immutable => !a.write
-     | .published =>
-         if a.write then
-           g.writer != 0 && a.fn == g.writer &&
-             sp.all (fun s => !(s.callee == g.reader) || (s.fn == g.writer && a.pos < s.pos))
-         else g.reader != 0 && (a.fn == g.writer || a.fn == g.reader))
+/-- the field an access touches in context `c`: (guard, object token); `none` = through a
+parameter the context does not bind (no obligation) -/
+def effGuard (c : Ctx) (a : Access) : Option (Nat × Nat) :=
+  if a.param == 0 then some (a.guard, a.base)
+  else (c.binds.find? (fun b => b.param + 1 == a.param)).map (fun b => (b.guard, b.base))
+
+/-- the lockset check of one access in one calling context: the locks of the function itself
+plus those the context brings in -/
+def accessOK (gs : List Guard) (sp : List Spawn) (c : Ctx) (a : Access) : Bool :=
+  match effGuard c a with
+  | none => true
+  | some (gid, base) =>
+    match guardOf gs gid with
+    | none => false
+    | some g =>
+      g.declared &&
+      (match g.kind with
+       | .locked => g.mutex != 0 && base != 0 &&
+           (a.held ++ c.locks).any (fun h => h.mutex == g.mutex && h.base == base && (h.excl || !a.write))
+       | .immutable => !a.write
+       | .published =>
+           a.param == 0 &&
+           (if a.write then
+             g.writer != 0 && a.fn == g.writer &&
+               sp.all (fun s => !(s.callee == g.reader) || (s.fn == g.writer && a.pos < s.pos))
+           else g.reader != 0 && (a.fn == g.writer || a.fn == g.reader)))
+
+def trTok (e : CallEdge) (t : Nat) : Nat :=
+  match e.trans.find? (fun p => p.1 == t) with
+  | some p => p.2
+  | none => if e.poison.contains t then 0 else t
+
+/-- the context in which the callee of `e` runs when the caller runs in `c` -/
+def pushCtx (e : CallEdge) (c : Ctx) : Ctx :=
+  { fn := e.callee
+    locks := (e.held ++ c.locks).map (fun l => { l with base := trTok e l.base })
+    binds := e.args.flatMap (fun a =>
+      if a.all then c.binds
+      else if a.fromParam == 0 then [⟨a.param, a.guard, trTok e a.base⟩]
+      else match c.binds.find? (fun b => b.param + 1 == a.fromParam) with
+        | some b => [⟨a.param, b.guard, trTok e b.base⟩]
+        | none => []) }
+
+/-- the recorded contexts are closed: entered-with-nothing-held functions have the empty context
+(and every exported / started / stored / never-called function is such a root), and every call
+site maps every context of its caller to a recorded context of its callee -/
+def contextsOK (ctxs : List Ctx) (edges : List CallEdge) (roots : List Nat) (facts : List FnFact) : Bool :=
+  roots.all (fun f => ctxs.contains ⟨f, [], []⟩)
+  && facts.all (fun x => !(x.exported || x.spawned || x.asValue || x.callSites == 0) || roots.contains x.fn)
+  && ctxs.all (fun c => facts.any (fun x => x.fn == c.fn))
+  && edges.all (fun e => ctxs.all (fun c => c.fn != e.caller || ctxs.contains (pushCtx e c)))
+
+def escapesOK (es : List Escape) : Bool := es.all (fun e => e.kind != .raw)
 
 /-- every designated field and its mutex are still declared, and every published field's reader is
 started only by its writer -/
@@ -364,8 +505,15 @@ def guardsOK (gs : List Guard) (sp : List Spawn) : Bool :=
      | .published => g.writer != 0 && g.reader != 0 &&
          sp.all (fun s => !(s.callee == g.reader) || s.fn == g.writer)))
 
-def tableOK (gs : List Guard) (sp : List Spawn) (accs : List Access) : Bool :=
-  guardsOK gs sp && accs.all (accessOK gs sp)
+/-- every access passes the lockset check in EVERY calling context of its function (the function's
+own locks plus the propagated ones), every function with an access has a context, the contexts are
+closed under the call edges -/
+def tableOK (gs : List Guard) (sp : List Spawn) (accs : List Access) (ctxs : List Ctx)
+    (edges : List CallEdge) (roots : List Nat) (facts : List FnFact) : Bool :=
+  guardsOK gs sp
+  && accs.all (fun a => ctxs.any (fun c => c.fn == a.fn))
+  && ctxs.all (fun c => accs.all (fun a => a.fn != c.fn || accessOK gs sp c a))
+  && contextsOK ctxs edges roots facts
 
 /-- longest chain of nested acquisitions ending in `b`, explored to depth `fuel` -/
 def rk (edges : List (Nat × Nat)) : Nat → Nat → Nat
